@@ -237,7 +237,8 @@ def handle : Handler
       let root ← optList? root
       let dflag ← optBool? directed
       let sym := symmetricB mt
-      if dflag == some false && !sym then some "holds"
+      if mt.nRow != mt.nCol then some "holds"          -- not an adjacency matrix: refused
+      else if dflag == some false && !sym then some "holds"
       else
         let directed := dflag.getD (!sym)
         let prow := posRows mt
